@@ -172,6 +172,16 @@ theorem exec_agree {D D' : Res → Bool} {s1 s2 s1' : Cpu} (mn : Mn) (o : Opd) (
     cases o <;> simp [Cpu.exec, Cpu.rmw, Cpu.ea, Cpu.gROR] at he hea ⊢ <;> subst he <;>
       simp [readsReg, writesReg, accShift, Opd.usesX, Opd.usesY] at qa qx qy qc wa wx wy wnz wc <;>
       (refine ⟨by simp [*], hsp, ?_, ?_, ?_, ?_, ?_, ?_⟩ <;> (try intro e) <;> simp [*])
+  case PHA =>
+    simp only [Cpu.exec, Option.some.injEq] at he ⊢
+    subst he
+    simp [readsReg, writesReg, accShift] at qa qx qy qc wa wx wy wnz wc
+    refine ⟨_, rfl, ?_, ?_, ?_, ?_, ?_, ?_, ?_, ?_⟩ <;> (try intro e) <;> simp [Cpu.push, *]
+  case PLA =>
+    simp only [Cpu.exec, Option.some.injEq] at he ⊢
+    subst he
+    simp [readsReg, writesReg, accShift] at qa qx qy qc wa wx wy wnz wc
+    refine ⟨_, rfl, ?_, ?_, ?_, ?_, ?_, ?_, ?_, ?_⟩ <;> (try intro e) <;> simp [Cpu.pull, *]
 
 
 
@@ -732,6 +742,24 @@ theorem xfer_sound (K : Facts) (mn : Mn) (o : Opd) (s s' : Cpu) (hs : supported 
     simp only [xfer, Facts.kill]
     exact ⟨keep_clr ha (fun src hp h => stab_Y hm ha hx src _ hp h) ka, keep_clr hx (fun src hp h => stab_Y hm ha hx src _ hp h) kx,
       optHolds_nil _ _, nz_of_set s' .y s'.y rfl hn.1 hn.2, by simp [zHolds]⟩
+  case PHA =>
+    simp only [Cpu.exec, Option.some.injEq] at he
+    have ha : s'.a = s.a := by rw [← he]; simp [Cpu.push]
+    have hx : s'.x = s.x := by rw [← he]; simp [Cpu.push]
+    have hy : s'.y = s.y := by rw [← he]; simp [Cpu.push]
+    have hf : s'.f = s.f := by rw [← he]; simp [Cpu.push]
+    obtain ⟨l1, l2, l3⟩ := lists_killM ha hx hy ka kx ky
+    simp only [xfer, Facts.kill]
+    exact ⟨l1, l2, l3, nz_keep K ha hx hy (by rw [hf]) (by rw [hf]) knz, by simpa [zHolds, hf] using kz⟩
+  case PLA =>
+    simp only [Cpu.exec, Option.some.injEq] at he
+    have hm : s'.mem = s.mem := by rw [← he]; simp [Cpu.pull]
+    have hx : s'.x = s.x := by rw [← he]; simp [Cpu.pull]
+    have hy : s'.y = s.y := by rw [← he]; simp [Cpu.pull]
+    have hn : s'.f.n = s'.a.msb ∧ s'.f.z = (s'.a == 0) := by rw [← he]; simp [Cpu.pull]
+    simp only [xfer, Facts.kill]
+    exact ⟨optHolds_nil _ _, keep_clr hx (fun src hp h => stab_A hm hx hy src _ hp h) kx,
+      keep_clr hy (fun src hp h => stab_A hm hx hy src _ hp h) ky, nz_of_set s' .a s'.a rfl hn.1 hn.2, by simp [zHolds]⟩
   case INC =>
     have hex : ∃ ad, s.ea o = some ad ∧ s' = { s with mem := s.mem.write ad (s.mem.read ad + 1), f := Cpu.setNZ s.f (s.mem.read ad + 1) } := by
       cases o <;> simp [Cpu.exec, Cpu.ea] at he ⊢ <;> exact he.symm
